@@ -218,7 +218,14 @@ fn post_checks(w: &World, dir_ids: &[Uuid], scen: &str, problems: &mut Vec<(Stri
 	for t in txs.iter() {
 		if t.stored_tx.is_some() {
 			if let Some(id) = t.tx_slate_id {
-				q!("get_stored_tx", a.with(|x| owner::get_stored_tx(&*x, None, Some(&id)).is_ok()));
+				// a log entry that names a stored-transaction file: the transaction, or an error —
+				// "nothing stored" would be a silent loss
+				if let Some(Ok(None)) = q!("get_stored_tx", a.with(|x| owner::get_stored_tx(&*x, None, Some(&id)))) {
+					problems.push((
+						format!("stored-tx-silently-lost/{}", scen),
+						format!("log entry {} names stored transaction file {:?} but get_stored_tx answers Ok(None) after reopen", t.id, t.stored_tx),
+					));
+				}
 			}
 		}
 	}
